@@ -44,7 +44,11 @@ HEADER = ('From Coq Require Import List ZArith Bool.\n'
           'Import ListNotations.\n'
           'Open Scope Z_scope.\n')
 
-THEOREMS = ['C05_pot_transform_compl_untouched']
+THEOREMS = ['C05_pot_transform_compl_untouched', 'C05_pot_transform_den',
+            'C05_apply_trcl_den', 'C05_cell_transform_den',
+            'C05_cache_coherent', 'C05_pot_fill_located',
+            'C05_fill_phase_located', 'C05_outside_container_nothing',
+            'C05_located_enumerated', 'C05_located_unique']
 
 
 def tie_case_summary(case):
